@@ -84,7 +84,9 @@ RULE = ("cases = deterministic configuration of every ranking / scoring / pairwi
         "order and hash order differ from the first), permute the ballots, split one ballot into identical ballots whose "
         "weights add up, merge identical ballots (condense), list the declared candidates in a different order; every "
         "round of the transformed election is compared with the original after un-renaming, whenever no tiebreak is "
-        "recorded; plus a fixed script of elections replayed in separate interpreters with different PYTHONHASHSEED "
+        "recorded; on ranked profiles the scoring utilities (first_place_votes, borda_scores, mentions, a custom vector; "
+        "exact and to_float=True) are evaluated on the original and on each transformed profile and must agree, floats bit "
+        "for bit; plus a fixed script of elections replayed in separate interpreters with different PYTHONHASHSEED "
         "values (2 in the quick tier, 8 in the thorough tier) whose canonical outputs must be byte-identical; "
         "non-trivial = at least two ballots and two candidates; distinct = distinct (rule, configuration, profile)")
 TRUSTED = ["CPython set/dict iteration and string hashing are not modelled: hash-seed independence cannot be exhibited by "
@@ -138,6 +140,28 @@ def run_variant(vk, rule, cfg, spec, names_list, ballots, cand_order, rs):
     return canon(res, Names(names_list)), res
 
 
+def util_outcomes(vk, names_list, ballots, cand_order):
+    """the scoring utilities on the profile built from index-level data: exact results and the to_float=True ones (a
+    float is the rounding of the exact total, so it must be bit-identical under every representation as well)"""
+    from votekit import utils as U
+    bl = tuple(gen.build_ballot(vk, names_list, b) for b in ballots)
+    prof = vk.PreferenceProfile(ballots=bl, candidates=tuple(names_list[c] for c in cand_order))
+    idx = {nm: i for i, nm in enumerate(names_list)}
+    n = len(cand_order)
+    out = {}
+    calls = {"fpv": lambda f: U.first_place_votes(prof, to_float=f), "borda": lambda f: U.borda_scores(prof, to_float=f),
+             "mentions": lambda f: U.mentions(prof, to_float=f),
+             "vector": lambda f: U.score_profile_from_rankings(prof, [n + 1] + [1] * max(0, n - 2), to_float=f)}
+    for key, fn in calls.items():
+        for f in (False, True):
+            try:
+                d = fn(f)
+                out[f"{key}:{'float' if f else 'exact'}"] = sorted((idx[str(c)], repr(v) if f else rat(Fraction(v))) for c, v in d.items())
+            except Exception as ex:     # noqa: BLE001
+                out[f"{key}:{'float' if f else 'exact'}"] = f"raises {type(ex).__name__}"
+    return out
+
+
 def run_case(vk, case):
     rule, cfg, spec = case["rule"], dict(case["cfg"]), case["spec"]
     names = Names(spec["names"])
@@ -188,12 +212,23 @@ def run_case(vk, case):
         # 5. declared candidates in a different order
         co = list(spec["c"]); rng.shuffle(co)
         variants["candidate-order"] = (spec["names"], spec["b"], co)
+        ranked_only = all(not b["s"] for b in spec["b"])
+        ubase = util_outcomes(vk, spec["names"], spec["b"], spec["c"]) if ranked_only else None
         for vname, (nl, bl, co) in variants.items():
             out, _ = run_variant(vk, rule, cfg, spec, nl, bl, co, case["rs"])
             if out != base:
                 detail = f"{vname}: original {str(base)[:250]} / transformed {str(out)[:250]}"
                 fail(f"not-invariant-under-{vname}", detail)
+            if ubase is not None:
+                uout = util_outcomes(vk, nl, bl, co)
+                diff = [k for k in ubase if ubase[k] != uout[k]]
+                if diff:
+                    k = diff[0]
+                    fail(f"scoring-utility-not-invariant-under-{vname}",
+                         f"{k}: original {str(ubase[k])[:220]} / transformed {str(uout[k])[:220]}")
         tags.append("compared:5-transformations")
+        if ubase is not None:
+            tags.append("compared:scoring-utilities")
     req, expect, failure = None, None, None
     random_tb_calls = [c for c in res["log"].calls if c[0] == "sample" and c[1] and isinstance(c[1][0], str)]
     if res["status"] != "timeout" and not (res["status"] == "exn" and random_tb_calls and rule in elect.STV_FAMILY):
